@@ -36,8 +36,8 @@ PURE_CALLS = {"len", "isinstance", "bool", "callable", "min", "max"}
 
 def is_pure_expr(e: ast.AST) -> bool:
     for n in ast.walk(e):
-        if isinstance(n, (ast.Await, ast.Yield, ast.YieldFrom, ast.NamedExpr, ast.Lambda)):
-            return False
+        if isinstance(n, (ast.Await, ast.Yield, ast.YieldFrom, ast.NamedExpr, ast.Lambda, ast.Subscript)):
+            return False  # (a subscript may raise IndexError or call __getitem__)
         if isinstance(n, ast.Call):
             f = n.func
             if isinstance(f, ast.Name) and f.id in PURE_CALLS:
@@ -122,7 +122,8 @@ class ExprMixin(EngineCore):
                 out.append((s, v))
                 continue
             if isinstance(e.op, ast.Not):
-                out.append((s, z3.Not(ops.truth(s, v))))
+                for s2, t in self.truth_of(s, ctx, v, e.lineno):
+                    out.append((s2, t if isinstance(t, Raise) else z3.Not(t)))
             elif isinstance(e.op, ast.USub):
                 v = ops.lift(v)
                 if isinstance(v, float):
@@ -218,11 +219,15 @@ class ExprMixin(EngineCore):
                 if i == len(e.values) - 1:
                     results.append((s2, v))
                     continue
-                for s3, br in self.fork(s2, ops.truth(s2, v)):
-                    if br == is_and:
-                        pending.append((s3, v, i + 1))
-                    else:
-                        results.append((s3, v))
+                for s2b, t in self.truth_of(s2, ctx, v, e.lineno):
+                    if isinstance(t, Raise):
+                        results.append((s2b, t))
+                        continue
+                    for s3, br in self.fork(s2b, t):
+                        if br == is_and:
+                            pending.append((s3, v, i + 1))
+                        else:
+                            results.append((s3, v))
         return results
 
     def ev_Compare(self, e, st, ctx):
